@@ -453,6 +453,86 @@ def late_rule_histories(rec, rng, n):
                 break
 
 
+def fresh_maps_and_second_bindings(rec, rng):
+    """Two histories of a map.  (a) A map that starts empty and is filled with add(); one of the factories hands out some
+    rules and then fails (an unknown converter in its last rule), the application logs that and carries on.  The map has
+    never been used, so it answers like a map built from the rules that did arrive.  (b) One map bound several times - two
+    listeners on one host name with different ports, a forwarded port, with and without a port: every adapter's redirects
+    name the host *it* was bound to."""
+    from werkzeug.exceptions import HTTPException
+    from werkzeug.routing import Map, Rule, Submount
+    from werkzeug.routing.exceptions import RequestRedirect
+
+    def outcome(ad, p, method="GET"):
+        try:
+            ep, args = ad.match(p, method=method)
+            return ("match", ep, tuple(sorted(args.items())))
+        except RequestRedirect as e:
+            return ("redirect", e.new_url)
+        except HTTPException as e:
+            return (type(e).__name__,)
+
+    # (a)
+    for variant in range(4):
+        good = [lambda: Rule("/old/<int:id>", endpoint="item", alias=True), lambda: Rule("/item/<int:id>", endpoint="item"), lambda: Rule("/<int:id>", endpoint="item_short", defaults=None),
+                lambda: Rule("/<name>/", endpoint="profile"), lambda: Rule("/list/<int:page>", endpoint="list"), lambda: Rule("/list/", endpoint="list", defaults={"page": 1})]
+        order = list(range(len(good)))
+        if variant % 2:
+            rng.shuffle(order)
+        m = Map()
+        arrived = []
+        for i in order[:3]:
+            m.add(good[i]())
+            arrived.append(i)
+        try:
+            m.add(Submount("", [good[i]() for i in order[3:]] + [Rule("/x/<nosuchconverter:y>", endpoint="x")]))
+            rec.observe("faulty_factory_did_not_fail")
+        except LookupError:
+            arrived += order[3:]
+        ref = Map([good[i]() for i in arrived]).bind("example.com", "/")
+        ad = m.bind("example.com", "/")
+        rec.case()
+        rec.nontrivial(("fresh-map-failed-add", tuple(order)))
+        rec.observe("fresh_maps_with_a_failed_add")
+        for p_ in ("/old/5", "/item/5", "/5", "/5/", "/bob", "/bob/", "/list/1", "/list/", "/list/3", "/nope/x"):
+            got, exp = outcome(ad, p_), outcome(ref, p_)
+            if got != exp:
+                rec.violation("C12/map-filled-with-add-answers-differently", f"{p_!r}: {got!r}; a map built from the same rules answers {exp!r} (rules arrived in the order {arrived}, the last add failed half-way)",
+                              {"family": "fresh-map-failed-add", "order": order, "path": p_}, monitor="history")
+                return
+    # (b)
+    for names in (["example.com:443", "example.com:8443", "example.com"], ["example.com", "example.com:8080"], ["b\u00fccher.example:8443", "b\u00fccher.example", "b\u00fccher.example:444"],
+                  ["EXAMPLE.com:81", "example.COM:82"]):
+        m = Map([Rule("/dir/", endpoint="dir"), Rule("/list/", endpoint="list", defaults={"page": 1}), Rule("/list/<int:page>", endpoint="list"), Rule("/old", endpoint="dir", alias=True)])
+        for nm_ in names * 2:
+            scheme = rng.choice(["http", "https"])
+            for via in ("bind", "environ"):
+                if via == "bind":
+                    ad = m.bind(nm_, "/app", url_scheme=scheme)
+                else:
+                    host_, _, port_ = nm_.partition(":")
+                    env_ = {"REQUEST_METHOD": "GET", "wsgi.url_scheme": scheme, "SERVER_NAME": "srv.internal", "SERVER_PORT": port_ or ("443" if scheme == "https" else "80"),
+                            "HTTP_HOST": nm_.encode("idna").decode() if not nm_.isascii() and ":" not in nm_ else (host_.encode("idna").decode() + (":" + port_ if port_ else "")),
+                            "SCRIPT_NAME": "/app", "PATH_INFO": "/", "QUERY_STRING": ""}
+                    ad = m.bind_to_environ(env_)
+                want_host = ad.server_name
+                host_, _, port_ = nm_.partition(":")
+                exp_host = host_.lower().encode("idna").decode() + (":" + port_ if port_ and not ((scheme, port_) in (("http", "80"), ("https", "443")) and via == "environ") else "")
+                rec.case()
+                rec.nontrivial(("second-binding", nm_, via, scheme))
+                rec.observe("adapters_of_a_map_bound_several_times")
+                if want_host != exp_host:
+                    rec.violation("C12/redirect-host-of-another-binding", f"{via}({nm_!r}, {scheme}) on a map that was bound to {names} before: the adapter's server name is {want_host!r}, expected {exp_host!r}",
+                                  {"family": "second-binding", "names": names, "bound": nm_, "via": via}, monitor="host")
+                    return
+                for p_ in ("/dir", "/list/1", "/old", "//dir/"):
+                    o_ = outcome(ad, p_)
+                    if o_[0] == "redirect" and not o_[1].startswith(f"{scheme}://{exp_host}/app/"):
+                        rec.violation("C12/redirect-host-of-another-binding", f"{via}({nm_!r}, {scheme}) on a map that was bound to {names} before: {p_!r} is redirected to {o_[1]!r}",
+                                      {"family": "second-binding", "names": names, "bound": nm_, "via": via, "path": p_}, monitor="host")
+                        return
+
+
 def concurrent_first_use(rec, rng, n):
     """Two threads hit a fresh map at once (yields injected inside Map.update): an alias registered before its
     canonical rule must still redirect to the canonical URL, never to itself."""
@@ -712,6 +792,7 @@ def run(shard, rec, rng):
     concurrent_first_use(rec, rng, 5 if shard["_tier"] == "quick" else 30)
     late_rule_histories(rec, rng, 60 if shard["_tier"] == "quick" else 600)
     aliases_across_hosts(rec, rng)
+    fresh_maps_and_second_bindings(rec, rng)
     for _ in range(cfg["maps"]):
         rules = gen_rules(rng)
         check_map(rec, rng, rules, rng.random() < 0.6, rng.random() < 0.6, rng.random() < 0.8, rng.choice(["/", "/app", "/app/", "/a/b", "/caf\u00e9", "/m n/"]),
